@@ -71,9 +71,11 @@ class HeapMixin:
         if key not in st.heap:
             # same initial constant on every path: declared once per key
             import re as _re
-            name = "H0$" + _re.sub(r"[^A-Za-z0-9_$.!]", "_", key)
+            pfx = getattr(self, "stale_prefix", None)
+            name = "H0$" + (pfx or "") + _re.sub(r"[^A-Za-z0-9_$.!]", "_", key)
             t = self.decls.const(name, arr(ksort, vsort))
-            self.initial_heap.setdefault(key, t)
+            if not pfx:             # (a stale run of a memoised function reads an earlier, unrelated heap)
+                self.initial_heap.setdefault(key, t)
             st.heap[key] = t
         return st.heap[key]
 
